@@ -1,9 +1,10 @@
 (* C17 — exactly one subcommand is selected and only its settings survive.
    Property theorems only; proofs in Proofs/C17SubcmdProofs.v.
 
-   parse : fuel -> parser -> input -> res ns   is the model of parse_args / parse_object /
+   parse : variant -> fuel -> parser -> input -> res ns   is the model of parse_args / parse_object /
    parse_string (with or without default_env=True) over subcommand trees of ANY depth and width
-   (Model/C17Subcmd.v).  `Sel false p cfg` (Spec/C17SubcmdSpec.v) says, at every level of nesting:
+   (Model/C17Subcmd.v).  `orig` is the pinned tree, bugs included; the other variants are the tree
+   after fixes/C17-*.patch (theorems C17_fixed_... at the end).  `Sel false p cfg` (Spec/C17SubcmdSpec.v) says, at every level of nesting:
    the subcommand key holds the name of a declared subcommand, that subcommand's section is present
    and complete (every declared option has a value), the section is itself well selected, and no
    other subcommand has a section; or, for an optional subcommand only, the key holds no name and
@@ -13,18 +14,18 @@
 From JV Require Import Lib.Base Model.C17Subcmd Spec.C17SubcmdSpec Proofs.C17SubcmdProofs.
 
 (* FULL STATEMENT (false of the unchanged code, see C17_falsy_name_refuted):
-     forall fuel p x cfg, wf p -> parse fuel p x = Ok cfg -> Sel false p cfg.                    *)
+     forall fuel p x cfg, wf p -> parse orig fuel p x = Ok cfg -> Sel false p cfg.                    *)
 
 (* What holds without any guard: the only way out is a level whose subcommand key holds a falsy
    value that is not None ("" or 0) — finding falsy-subcommand-name-keeps-all-sections *)
 Theorem C17_one_selected_or_falsy :
-  forall fuel p x cfg, wf p -> parse fuel p x = Ok cfg -> Sel true p cfg.
-Proof. exact one_selected_or_falsy. Qed.
+  forall fuel p x cfg, wf p -> parse orig fuel p x = Ok cfg -> Sel true p cfg.
+Proof. exact one_selected_or_falsy_orig. Qed.
 Print Assumptions C17_one_selected_or_falsy.
 
 (* The guarded statement.  dest_truthy is the very function the judge evaluates for class 1. *)
 Theorem C17_one_selected :
-  forall fuel p x cfg, wf p -> parse fuel p x = Ok cfg -> dest_truthy p cfg = true -> Sel false p cfg.
+  forall fuel p x cfg, wf p -> parse orig fuel p x = Ok cfg -> dest_truthy p cfg = true -> Sel false p cfg.
 Proof. exact one_selected. Qed.
 Print Assumptions C17_one_selected.
 
@@ -32,7 +33,7 @@ Print Assumptions C17_one_selected.
    complete section — so when none can be determined the parse fails *)
 Theorem C17_required_selected :
   forall fuel p x cfg, wf p -> p_has p = true -> p_req p = true ->
-    parse fuel p x = Ok cfg -> dest_truthy p cfg = true ->
+    parse orig fuel p x = Ok cfg -> dest_truthy p cfg = true ->
     exists n sp sec, get (p_dest p) cfg = Some (NStr n) /\ assoc n (p_choices p) = Some sp /\
                      get n cfg = Some (NNs sec) /\ complete sp sec = true.
 Proof. exact required_selected. Qed.
@@ -42,16 +43,16 @@ Print Assumptions C17_required_selected.
    with the documented "expected <dest> to be one of ..." error, not by running out of fuel *)
 Theorem C17_required_missing_fails :
   forall p f, wf p -> p_has p = true -> p_req p = true ->
-    parse (S (S f)) p {| i_env := None; i_entry := EObject [] |} = Err NoSubcommand /\
-    parse (S (S f)) p {| i_env := None; i_entry := EString [] |} = Err NoSubcommand /\
-    parse (S (S f)) p {| i_env := None; i_entry := EArgs (ArgvT [] None) |} = Err NoSubcommand.
-Proof. exact required_missing_fails_empty. Qed.
+    parse orig (S (S f)) p {| i_env := None; i_entry := EObject [] |} = Err NoSubcommand /\
+    parse orig (S (S f)) p {| i_env := None; i_entry := EString [] |} = Err NoSubcommand /\
+    parse orig (S (S f)) p {| i_env := None; i_entry := EArgs (ArgvT [] None) |} = Err NoSubcommand.
+Proof. exact (required_missing_fails_empty orig). Qed.
 Print Assumptions C17_required_missing_fails.
 
 (* an optional subcommand that is not selected: the key holds no name and NO section is present *)
 Theorem C17_optional_missing_gives_none :
   forall fuel p x cfg, wf p -> p_has p = true ->
-    parse fuel p x = Ok cfg -> dest_truthy p cfg = true ->
+    parse orig fuel p x = Ok cfg -> dest_truthy p cfg = true ->
     (get (p_dest p) cfg = None \/ get (p_dest p) cfg = Some NNone) ->
     p_req p = false /\ forall o, In o (p_names p) -> is_ns (get o cfg) = false.
 Proof. exact optional_missing_gives_none. Qed.
@@ -66,7 +67,7 @@ Print Assumptions C17_wf_checker_sound.
    selects b because only b was given settings *)
 Example C17_hypotheses_satisfiable :
   wf p_opt /\
-  exists cfg, parse 10 p_opt {| i_env := None; i_entry := EObject [(s_b, CObj [(s_y, CInt 7)])] |} = Ok cfg /\
+  exists cfg, parse orig 10 p_opt {| i_env := None; i_entry := EObject [(s_b, CObj [(s_y, CInt 7)])] |} = Ok cfg /\
               dest_truthy p_opt cfg = true /\ get s_sub cfg = Some (NStr s_b) /\
               get s_b cfg = Some (NNs [(s_y, NInt 7)]) /\ get s_a cfg = None.
 Proof. split; [exact wf_p_opt|]. eexists. vm_compute. repeat split. Qed.
@@ -74,7 +75,7 @@ Proof. split; [exact wf_p_opt|]. eexists. vm_compute. repeat split. Qed.
 (* finding 1: optional subcommands, the object names "" and gives settings for a and b: the parse
    succeeds, stores "" and keeps BOTH sections — the full statement is false *)
 Theorem C17_falsy_name_refuted :
-  exists fuel p x cfg, wf p /\ parse fuel p x = Ok cfg /\ ~ Sel false p cfg /\
+  exists fuel p x cfg, wf p /\ parse orig fuel p x = Ok cfg /\ ~ Sel false p cfg /\
                        is_ns (get s_a cfg) = true /\ is_ns (get s_b cfg) = true.
 Proof. exact falsy_name_refuted. Qed.
 Print Assumptions C17_falsy_name_refuted.
@@ -88,7 +89,7 @@ Definition x_cfg_other : input :=
      i_entry := EArgs (ArgvT [ICfg [(s_sub, CStr s_b); (s_a, CObj [(s_q, CObj [(s_w, CInt 8)])]); (s_b, CObj [(s_y, CInt 1)])]]
                              (Some (s_a, ArgvT [] None))) |}.
 Theorem C17_cfg_names_other_refuted :
-  exists cfg, parse 10 p_nested x_cfg_other = Ok cfg /\
+  exists cfg, parse orig 10 p_nested x_cfg_other = Ok cfg /\
               input_consistent 10 p_nested x_cfg_other = false /\
               select p_nested (top_level x_cfg_other) = Some s_a /\
               select p_a (sub_level (top_level x_cfg_other) s_a) = Some s_q /\
@@ -96,3 +97,79 @@ Theorem C17_cfg_names_other_refuted :
               spec_ok 10 p_nested (top_level x_cfg_other) cfg = false.
 Proof. eexists. vm_compute. repeat split. Qed.
 Print Assumptions C17_cfg_names_other_refuted.
+
+(* ---------- WHICH subcommand is chosen: the explicit channels of the rule, in every variant ---------- *)
+(* "The choice is the one named on the command line": for every tree, every option / --cfg item before
+   the token (a --cfg value may name another subcommand), every rest of the command line and every
+   environment, a successful parse_args stores the token under the subcommand key *)
+Theorem C17_command_line_name_wins :
+  forall fx fuel env p items n rest cfg, wf p ->
+    parse fx fuel p {| i_env := env; i_entry := EArgs (ArgvT items (Some (n, rest))) |} = Ok cfg ->
+    In n (p_names p) /\ get (p_dest p) cfg = Some (NStr n).
+Proof. exact argv_name_wins. Qed.
+Print Assumptions C17_command_line_name_wins.
+
+(* "else the one named in the config": parse_object / parse_string with the subcommand key set, with or
+   without default_env and whatever the environment names or which sections carry settings *)
+Theorem C17_config_name_wins :
+  forall fx fuel env p c n cfg, wf p -> p_has p = true -> named_in (p_dest p) c = Some n ->
+    (parse fx fuel p {| i_env := env; i_entry := EObject c |} = Ok cfg \/
+     parse fx fuel p {| i_env := env; i_entry := EString c |} = Ok cfg) ->
+    get (p_dest p) cfg = Some (NStr n).
+Proof. exact object_name_wins. Qed.
+Print Assumptions C17_config_name_wins.
+
+(* both hypotheses are satisfiable: the command line names a although the --cfg value names b; the
+   object names b although settings are given for a (declared first) *)
+Example C17_name_wins_satisfiable :
+  (exists cfg, parse orig 10 p_nested x_cfg_other = Ok cfg /\ get s_sub cfg = Some (NStr s_a)) /\
+  (exists cfg, parse orig 10 p_opt {| i_env := None; i_entry := EObject [(s_a, CObj [(s_x, CInt 5)]); (s_sub, CStr s_b)] |} = Ok cfg /\
+               get s_sub cfg = Some (NStr s_b) /\ get s_a cfg = None).
+Proof. split; eexists; vm_compute; repeat split. Qed.
+
+(* ---------- the repaired trees ---------- *)
+(* with fixes/C17-falsy-subcommand-name-keeps-all-sections.patch (fx_falsy = true, whatever fx_cfg is)
+   the FULL statement holds, no guard: judge variants judge_fixed_falsy / judge_fixed_both *)
+Theorem C17_fixed_one_selected :
+  forall fx fuel p x cfg, fx_falsy fx = true -> wf p -> parse fx fuel p x = Ok cfg -> Sel false p cfg.
+Proof. exact fixed_one_selected. Qed.
+Print Assumptions C17_fixed_one_selected.
+
+Theorem C17_fixed_required_selected :
+  forall fx fuel p x cfg, fx_falsy fx = true -> wf p -> p_has p = true -> p_req p = true ->
+    parse fx fuel p x = Ok cfg ->
+    exists n sp sec, get (p_dest p) cfg = Some (NStr n) /\ assoc n (p_choices p) = Some sp /\
+                     get n cfg = Some (NNs sec) /\ complete sp sec = true.
+Proof. exact fixed_required_selected. Qed.
+Print Assumptions C17_fixed_required_selected.
+
+Theorem C17_fixed_optional_missing_gives_none :
+  forall fx fuel p x cfg, fx_falsy fx = true -> wf p -> p_has p = true ->
+    parse fx fuel p x = Ok cfg ->
+    (get (p_dest p) cfg = None \/ get (p_dest p) cfg = Some NNone) ->
+    p_req p = false /\ forall o, In o (p_names p) -> is_ns (get o cfg) = false.
+Proof. exact fixed_optional_missing_gives_none. Qed.
+Print Assumptions C17_fixed_optional_missing_gives_none.
+
+(* the error branch holds in every variant *)
+Theorem C17_any_variant_required_missing_fails :
+  forall fx p f, wf p -> p_has p = true -> p_req p = true ->
+    parse fx (S (S f)) p {| i_env := None; i_entry := EObject [] |} = Err NoSubcommand /\
+    parse fx (S (S f)) p {| i_env := None; i_entry := EString [] |} = Err NoSubcommand /\
+    parse fx (S (S f)) p {| i_env := None; i_entry := EArgs (ArgvT [] None) |} = Err NoSubcommand.
+Proof. exact required_missing_fails_empty. Qed.
+Print Assumptions C17_any_variant_required_missing_fails.
+
+(* the two failing inputs on the repaired trees: the falsy name is rejected with the documented
+   error; the --cfg value naming b no longer costs a its settings and the result is what the
+   selection rule demands *)
+Example C17_fixed_falsy_input_rejected :
+  parse {| fx_falsy := true; fx_cfg := false |} 10 p_opt x_falsy = Err NoSubcommand.
+Proof. vm_compute. reflexivity. Qed.
+
+Example C17_fixed_cfg_input_keeps_settings :
+  exists cfg, parse {| fx_falsy := false; fx_cfg := true |} 10 p_nested x_cfg_other = Ok cfg /\
+              get s_cmd (as_ns (get s_a cfg)) = Some (NStr s_q) /\
+              get s_w (as_ns (get s_q (as_ns (get s_a cfg)))) = Some (NInt 8) /\
+              spec_ok 10 p_nested (top_level x_cfg_other) cfg = true.
+Proof. eexists. vm_compute. repeat split. Qed.
